@@ -19,9 +19,11 @@
    What is assumed, by name:
      coherent U / distinct_opcodes U   opcodes < 2^16 identify the symbol
      A_hash           MurmurHash3 does not collide on the two streams involved
-     H_cse            (hypothesis of the MCse step) cse() keeps the packed stream *)
+     sym_id U         opcodes are primary keys of the symbols in use
+   (H_cse of round 1 is now the theorem C03_cse_preserves_pack.) *)
 From Coq Require Import ZArith NArith List Bool.
-From VV Require Import Base.F64 Base.Values Interp.Strategy Mep.Genome Sig.Bits64 Sig.Murmur Sig.SigDefs Sig.SigProofs Sig.TreeProofs.
+From VV Require Import Base.F64 Base.Values Interp.Strategy Mep.Genome Mep.OpsDefs.
+From VV Require Import Sig.Bits64 Sig.Murmur Sig.SigDefs Sig.SigProofs Sig.TreeProofs Sig.CseDefs Sig.CseSig.
 Import ListNotations.
 
 (* ================= 1. pack is a prefix-free code of the active tree ====== *)
@@ -100,10 +102,41 @@ Theorem C03_mep_step_preserves_invariant : forall pc x o y,
 Proof. exact mep_step_preserves. Qed.
 Print Assumptions C03_mep_step_preserves_invariant.
 
-(* ... hence, for every history (and every gene-equality tolerance pc): *)
-Theorem C03_cache_never_stale_mep : forall pc x h x',
-  mep_reach pc x -> signature hash_mep x = Some (h, x') -> hash_mep (content x) = Some h.
-Proof. exact mep_never_stale. Qed.
+(* i_mep::cse() -- C02's executable model of the repaired code, with the
+   comparator of "fix: i_mep::cse() merges the constants +0.0 and -0.0" -- keeps
+   the packed stream, hence the signature (the cached one it copies stays valid) *)
+Theorem C03_cse_preserves_pack : forall U g g', sym_id U -> typed g -> genome_over U g ->
+  cse_bits g = Some g' -> mep_pack g' = mep_pack g /\ hash_mep g' = hash_mep g.
+Proof. exact cse_preserves_pack. Qed.
+Print Assumptions C03_cse_preserves_pack.
+
+(* and every unfolded tree, at every locus and every depth, up to canon *)
+Theorem C03_cse_preserves_every_tree : forall U g g', sym_id U -> typed g -> genome_over U g ->
+  cse_bits g = Some g' ->
+  rows g' = rows g /\ cats g' = cats g /\ best g' = best g /\ typed g' /\ genome_over U g' /\
+  forall f l, option_map canon (tree_of f g' l) = option_map canon (tree_of f g l).
+Proof.
+  intros U g g' HU Ht Ho H.
+  exact (cse_genome_trees gene_cmp_bits U (fun _ => True) (fun _ _ _ => I) (gene_cmp_bits_sound U HU)
+           g g' Ht Ho (fun _ _ _ _ => I) H).
+Qed.
+Print Assumptions C03_cse_preserves_every_tree.
+
+(* the comparator before that fix (a.par < b.par) only under the proviso that
+   parameters comparing equal have equal bytes (false for +0.0/-0.0: Refuted_C03) *)
+Theorem C03_cse_ltb_preserves_pack_partial : forall (Good : f64 -> Prop),
+  (forall x y, Good x -> Good y -> par_incomp x y = true -> par_bits x = par_bits y) ->
+  forall U g g', sym_id U -> typed g -> genome_over U g ->
+  (forall r c ge, cell g r c = Some ge -> good_gene Good ge) ->
+  cse_ltb g = Some g' -> mep_pack g' = mep_pack g /\ hash_mep g' = hash_mep g.
+Proof. exact cse_ltb_preserves_pack_proviso. Qed.
+Print Assumptions C03_cse_ltb_preserves_pack_partial.
+
+(* ... hence, for every history (and every gene-equality tolerance pc); the
+   MCse step is the computed cse of a well-typed genome, nothing is assumed: *)
+Theorem C03_cache_never_stale_mep : forall U pc, sym_id U -> forall x h x',
+  mep_reach2 U pc x -> signature hash_mep x = Some (h, x') -> hash_mep (content x) = Some h.
+Proof. exact mep_never_stale2. Qed.
 Print Assumptions C03_cache_never_stale_mep.
 
 Theorem C03_cache_never_stale_iga : forall x h x',
@@ -194,6 +227,40 @@ Definition ex_history : list mep_op :=
 Example ex_history_runs : exists x, run (mep_step (fun _ _ => false)) (clear ex_g1) ex_history = Some x /\
   sig_cache x <> None /\ cache_ok_b hash_mep x = true.
 Proof. eexists. split; [vm_compute; reflexivity|]. split; [vm_compute; discriminate|vm_compute; reflexivity]. Qed.
+
+(* cse: F(F(X,1.0), F(X,1.0)) with the two equal sub-expressions on rows 1 and 2
+   is rewired to use row 2 twice; pack and signature do not move; +0.0 and -0.0
+   are NOT merged by the repaired comparator *)
+Definition ex_g3 : genome :=
+  {| rows := 5; cats := 1; best := mk_locus 0 0;
+     cell := fun r c => match r, c with
+                        | 0, 0 => Some (gF 1 2) | 1, 0 => Some (gF 3 4) | 2, 0 => Some (gF 3 4)
+                        | 3, 0 => Some gX | 4, 0 => Some gC | _, _ => None end%nat |}.
+Definition ex_g4 : genome :=
+  {| rows := 3; cats := 1; best := mk_locus 0 0;
+     cell := fun r c => match r, c with
+                        | 0, 0 => Some (gF 1 2) | 1, 0 => Some (mk_gene sC F64.zero [])
+                        | 2, 0 => Some (mk_gene sC (F64.neg F64.zero) []) | _, _ => None end%nat |}.
+Example ex_cse_rewires_and_keeps_pack :
+  exists g', cse_bits ex_g3 = Some g' /\ option_map g_args (cell g' 0 0)%nat = Some [2; 2]%nat /\
+             mep_pack g' = mep_pack ex_g3 /\ mep_pack ex_g3 <> None.
+Proof.
+  destruct (cse_bits ex_g3) as [g'|] eqn:E; [|vm_compute in E; discriminate]. exists g'. split; [reflexivity|].
+  vm_compute in E. inversion E. subst g'. repeat split; vm_compute; try reflexivity; discriminate.
+Qed.
+Example ex_cse_keeps_signed_zeros_apart :
+  exists g', cse_bits ex_g4 = Some g' /\ option_map g_args (cell g' 0 0)%nat = Some [1; 2]%nat.
+Proof.
+  destruct (cse_bits ex_g4) as [g'|] eqn:E; [|vm_compute in E; discriminate]. exists g'. split; [reflexivity|].
+  vm_compute in E. inversion E. subst g'. vm_compute. reflexivity.
+Qed.
+Example ex_sym_id_typed : sym_id ex_U /\ typed ex_g3 /\ genome_over ex_U ex_g3.
+Proof.
+  split; [|split].
+  - intros s1 s2 [<-|[<-|[<-|[]]]] [<-|[<-|[<-|[]]]] E; try reflexivity; vm_compute in E; discriminate.
+  - intros r c ge H. destruct r as [|[|[|[|[|r]]]]]; destruct c as [|c]; cbn in H; inversion H; reflexivity.
+  - intros r c ge H. destruct r as [|[|[|[|[|r]]]]]; destruct c as [|c]; cbn in H; inversion H; cbn; unfold ex_U; cbn; tauto.
+Qed.
 
 (* combine is not commutative: the order of the members matters *)
 Example C03_combine_not_commutative :
